@@ -140,7 +140,7 @@ PollEnd == /\ mode = "poll" /\ batch = <<>>
            /\ S' = Sweep(S) /\ mode' = "app" /\ UNCHANGED <<batch, todo, kAtStart>>
 
 \* epoll_wait interrupted by a signal (EINTR): no event is handled, the sweep still runs and the
-\* call returns an empty list (model only: the single-threaded harness never blocks in epoll_wait)
+\* call returns an empty list (bound to the code by the harness step poll_eintr / TPollEintr of Trace_Srv)
 PollEintr == /\ mode = "app" /\ ~(S.killed /\ S.hasKill)
              /\ S' = Sweep(S) /\ UNCHANGED <<mode, batch, todo>> /\ kAtStart' = FALSE
 
